@@ -157,9 +157,12 @@ class Live(JupyterMixin, RenderHook):
             if not self._started:
                 return
             self._started = False
+            # take the thread while holding the lock: a concurrent start() may install a new one
+            refresh_thread = self._refresh_thread
+            self._refresh_thread = None
             try:
-                if self.auto_refresh and self._refresh_thread is not None:
-                    self._refresh_thread.stop()
+                if self.auto_refresh and refresh_thread is not None:
+                    refresh_thread.stop()
                 # allow it to fully render on the last even if overflow
                 vertical_overflow = self.vertical_overflow
                 self.vertical_overflow = "visible"
@@ -184,9 +187,8 @@ class Live(JupyterMixin, RenderHook):
                     # jupyter last refresh must occur after console pop render hook
                     # i am not sure why this is needed
                     self.refresh()
-        if self.auto_refresh and self._refresh_thread is not None:
-            self._refresh_thread.join()
-            self._refresh_thread = None
+        if self.auto_refresh and refresh_thread is not None:
+            refresh_thread.join()
 
     def __enter__(self) -> "Live":
         self.start()
